@@ -589,15 +589,16 @@ PROPS["C11"] = dict(
 
 PROPS["C02"] = dict(
     title="Acknowledged mode recovers from any bounded loss, duplication and reordering",
-    module="Cfdp.Props.C02v",
+    module="Cfdp.Props.C02x",
     namespace="Cfdp.Seg",
     theorems=["C02_round_completes", "C02_gaps_answered", "Cfdp.Recv.C02_finishes_when_complete", "Cfdp.Recv.C02_never_waits_complete", "Cfdp.Recv.C02_complete_is_success", "Cfdp.Recv.C02_size_check_passes", "Cfdp.Loop.C02_no_integrity_fault", "Cfdp.Net.C02_two_party_no_integrity_fault", "Cfdp.Loop.C02_recv_completes", "Cfdp.Loop.C02_send_completes", "Cfdp.Net.C02_two_party_completes",
               "Cfdp.Loop.C02_sender_answers_nak", "Cfdp.Loop.C02_receiver_recovers", "Cfdp.Loop.C02_recovery_round",
               "Cfdp.Loop.C02_full_round", "Cfdp.Loop.C02_full_round_after_wake", "Cfdp.Loop.C02_timer_round",
-              "Cfdp.Loop.C02_lost_eof_round", "Cfdp.Loop.C02_lost_finished_round", "Cfdp.Loop.C02_lost_metadata_round"],
+              "Cfdp.Loop.C02_lost_eof_round", "Cfdp.Loop.C02_lost_finished_round", "Cfdp.Loop.C02_lost_metadata_round",
+              "Cfdp.Loop.C02_lossy_rounds", "Cfdp.Loop.C02_lossy_rounds_fair"],
     engines=["daemon", "recv", "send", "net"],
     design="§6 C02",
-    technique="Lean 4 proofs of the recovery steps and of whole single-loss recovery rounds (lost data, EOF, Finished / ACK, Metadata) through both transaction models and the link; the concatenation of rounds over a lossy fair schedule is checked on two real daemons under a virtual clock with bounded fault plans",
+    technique="Lean 4 proofs of the recovery steps and of whole single-loss recovery rounds (lost data, EOF, Finished / ACK, Metadata) through both transaction models and the link, and of the receiver's NAK loop over any fair lossy schedule (any number of lossy rounds, limits derived from fairness); the whole transfer over a lossy schedule of both models is checked on two real daemons under a virtual clock with bounded fault plans",
     level_text=("Kernel-checked recovery steps: whatever the receiver holds, if the data PDUs that arrive afterwards - in any order, duplicated, cut into any pieces - together cover "
                 "the bytes of [0, size) it was missing, its segment list covers [0, size) (C02_round_completes), in particular for exact answers to the requests of one NAK "
                 "(C02_gaps_answered; the requests are exactly what is missing by C08_exact, the sender's answers carry exactly the requested bytes of the file by C07); in the "
@@ -633,9 +634,19 @@ PROPS["C02"] = dict(
                 "sender's invariants make truthful, and it completes the delivery at a receiver holding everything else (C02_lost_eof_round); a lost Finished PDU or a lost ACK of it - "
                 "the receiver's positive-ACK timer repeats the Finished PDU (finished_timer_resends), the sender records the receiver's outcome, acknowledges and ends, the ACK ends the "
                 "receiver (C02_lost_finished_round); a lost Metadata PDU - the 0-0 marker of a NAK makes the sender repeat it and it completes the delivery (C02_lost_metadata_round). "
-                "PARTIAL: that such a round comes about - the NAK timer fires, the NAK and its answers get through - whenever fewer than `limit` consecutive transmissions "
-                "of any PDU are lost is a statement about the timers of two transaction models, the link and the scheduler; C03 / C17 bound the timers, C08 gives the NAK's "
-                "content, but the composition over a lossy fair schedule is not one theorem here. It is checked on the real code: the daemon engine runs acknowledged transfers between two real daemons with every kind of fault "
+                "The NAK loop under loss is a theorem too (Props/C02x.lean): a LOSSY round - the NAK timer runs out, the rebuilt queue goes out in NAK PDUs, the link lets through "
+                "whatever it likes of the sender's answers (any list of file-data PDUs carrying the source's own bytes, at any times, duplicates included, possibly none) - takes a "
+                "receiver in mid-recovery with nothing to transmit either to success or to another such state holding what it held plus what got through (wake_flush, wn_deliverAll), so "
+                "rounds concatenate (nakRounds_inv) and once every missing byte has got through in SOME round the delivery has succeeded, as long as no limit is reached "
+                "(C02_lossy_rounds). That no limit is reached is derived from a fairness condition on the schedule alone (Fair: each round is played during the second period of "
+                "the NAK timer after the one before; fewer than limit-1 rounds in a row bring nothing new; no round is played limit inactivity periods or more after the last "
+                "delivery): the NAK counter goes up by exactly one in a round that follows a fruitless one and starts again from zero when something new has arrived, the "
+                "inactivity counter starts again at every delivery and only counts expiries that lie after it (fair_sched; C02_lossy_rounds_fair; a three-round schedule whose "
+                "first round loses everything is the example). "
+                "PARTIAL: the loop theorem covers the data-recovery phase (EOF handshake done: only file data and Metadata reach the receiver); the lossy EOF / Finished / Metadata "
+                "handshakes are single-loss rounds (above), not loops; and that the sender's answers are what gets through is the per-round theorem C02_sender_answers_nak, not part of "
+                "the loop's statement (the loop quantifies over everything truthful the link may deliver). The composition of all of it over one lossy fair schedule of both models "
+                "is not one theorem. It is checked on the real code: the daemon engine runs acknowledged transfers between two real daemons with every kind of fault "
                 "plan below the limit and requires file identity, success at both users and termination of both transactions (oracles recovers, same_outcome, daemon_bounded); the net engine does the same on a real sender and a real receiver in lockstep with both Lean models (losses confined to a zero-time phase, then a loss-free link)."),
     level_note=DAEMON_NOTE + " " + RECV_SEND_NOTE,
     rule=("daemon engine: 40 (quick) / 400 (thorough) acknowledged transfers, files of 0, 1, seg-1, seg, seg+1, 3 seg, 5 seg+7 octets, segment 32/64/128, limit 3/4, timeouts 1-3 s, "
@@ -644,5 +655,5 @@ PROPS["C02"] = dict(
           "per-side steps. Non-trivial = a routing line with at least one delivered PDU / a PDU emitted."
           " net engine (300 quick / 3000 thorough two-party histories): one real SendTransaction and one real RecvTransaction joined by a simulated link that delivers only PDUs the other side emitted (in order, lost, duplicated, reordered, as stragglers), random schedules of transmissions, deliveries, timer expiries and user requests at both sides, then a loss-free fair phase on the shared virtual clock until both have ended; every call is answered in lockstep by the Lean sender and receiver models (ops net s / net r), the per-side oracles of the send / recv engines keep running, and two-party oracles are added: C02 recovers / same_outcome (acknowledged mode, losses confined to a zero-time phase, default handlers: both sides report success), C03 net_bounded / net_never_stuck, C04 sender_success_only_after_receiver, C01 two_party_file."),
     assumptions=["bounded faults: fewer than `limit` faults per transfer, delays below the timers (as the property states)"],
-    unproved=["that under bounded loss every timer expiry below its limit is followed, within the limits, by a round in which nothing is lost (each kind of round - lost data, EOF, Finished / ACK, Metadata - is a theorem; their concatenation over a lossy fair schedule is not): checked dynamically by the daemon and net engines; proved are 'delivery implies completion' (receiver and two-party model) and 'a recovery round in which nothing is lost completes the delivery', through both models and the link (C02_full_round)"],
+    unproved=["one theorem for the whole transfer over a lossy fair schedule of both models and the link: proved are 'delivery implies completion' (receiver and two-party model), every single-loss round (lost data, EOF, Finished / ACK, Metadata) through both models and the link, and the receiver's NAK loop over any fair lossy schedule (C02_lossy_rounds_fair: any number of lossy rounds, limits derived from fairness); the EOF / Finished / Metadata handshakes under repeated loss and the sender's side of the loop (its inactivity limit while it answers) are bounded by C03 / C17 and checked dynamically by the daemon and net engines"],
 )
